@@ -74,6 +74,28 @@ func (g *gatedChunkReader) Read() ([]byte, error) {
 
 func (g *gatedChunkReader) Close() {}
 
+// gatedReader is the io.Reader form of the same source (uploads arriving through ByteStream.Write are
+// reader-backed buffers, which reach the block writers through io.Copy instead of one Write per chunk).
+type gatedReader struct {
+	g    gatedChunkReader
+	rest []byte
+}
+
+func (g *gatedReader) Read(p []byte) (int, error) {
+	if len(g.rest) == 0 {
+		c, err := g.g.Read()
+		if err != nil {
+			return 0, err
+		}
+		g.rest = c
+	}
+	n := copy(p, g.rest)
+	g.rest = g.rest[n:]
+	return n, nil
+}
+
+func (g *gatedReader) Close() error { return nil }
+
 // gatedSlicer parks before touching the parent, then slices it as the case designates.
 type gatedSlicer struct {
 	r  *Runner
@@ -196,7 +218,18 @@ func (r *Runner) startPut(id, obj, ver int, chunking, fault string) {
 			data[len(data)/2] ^= 0x01
 			op.copied = false
 		}
-		op.chunks = splitChunks(data, chunking)
+		asReader := strings.HasPrefix(chunking, "r")
+		op.chunks = splitChunks(data, strings.TrimPrefix(chunking, "r"))
+		if asReader {
+			// an io.Reader must not return (0, nil): no empty chunks
+			var cs [][]byte
+			for _, c := range op.chunks {
+				if len(c) > 0 {
+					cs = append(cs, c)
+				}
+			}
+			op.chunks = cs
+		}
 		if strings.HasPrefix(fault, "err") {
 			// fail after delivering k chunks
 			k := 0
@@ -207,7 +240,11 @@ func (r *Runner) startPut(id, obj, ver int, chunking, fault string) {
 			op.failErr = status.Error(codes.Aborted, "injected source failure")
 			op.copied = false
 		}
-		b = buffer.NewCASBufferFromChunkReader(d, &gatedChunkReader{r: r, op: op}, buffer.UserProvided)
+		if asReader {
+			b = buffer.NewCASBufferFromReader(d, &gatedReader{g: gatedChunkReader{r: r, op: op}}, buffer.UserProvided)
+		} else {
+			b = buffer.NewCASBufferFromChunkReader(d, &gatedChunkReader{r: r, op: op}, buffer.UserProvided)
+		}
 	}
 	r.pending[id] = op
 	go func() {
